@@ -1141,3 +1141,78 @@ def rule_finaldeps(ctx) -> RuleResult:
     if n_calls == 0:
         res.notes.append("UNDECIDED: the final dtype is not computed by _normalize_dtype(...)")
     return res
+
+
+# ---------------------------------------------------------------------------------------------
+# R-KINDMISSING (C10): "this dtype has no missing values" is only concluded for kinds that have none.
+# A fill scan (ffill / bfill) may hand the input back unchanged when the dtype cannot hold a missing value.  The guard is a test on
+# dtype.kind; evaluated over NumPy's kind alphabet it must be false for every kind that *does* have a missing value: f (NaN), c (NaN),
+# m and M (NaT), O (None / NaN).  `kind != "f"` is true for c, m, M, O: datetime arrays with NaT came back unfilled.
+_KINDS = "biufcmMOSUV"
+_KINDS_WITH_MISSING = set("fcmMO")
+
+
+def _eval_kind_test(test: ast.AST, subject_suffix: str, k: str):
+    """truth value of a test built from comparisons of <x>.dtype.kind with constants, for kind k; None if not evaluable"""
+    if isinstance(test, ast.BoolOp):
+        vals = [_eval_kind_test(v, subject_suffix, k) for v in test.values]
+        if isinstance(test.op, ast.And):
+            if any(v is False for v in vals):
+                return False
+            return True if all(v is True for v in vals) else None
+        if any(v is True for v in vals):
+            return True
+        return False if all(v is False for v in vals) else None
+    if isinstance(test, ast.UnaryOp) and isinstance(test.op, ast.Not):
+        v = _eval_kind_test(test.operand, subject_suffix, k)
+        return None if v is None else (not v)
+    if isinstance(test, ast.Compare) and len(test.ops) == 1 and norm(test.left).endswith(subject_suffix):
+        op, r = test.ops[0], test.comparators[0]
+        if isinstance(r, ast.Constant) and isinstance(r.value, str):
+            cs = r.value
+        elif isinstance(r, (ast.List, ast.Tuple, ast.Set)) and all(isinstance(e, ast.Constant) for e in r.elts):
+            cs = [e.value for e in r.elts]
+        else:
+            return None
+        if isinstance(op, ast.Eq):
+            return k == cs
+        if isinstance(op, ast.NotEq):
+            return k != cs
+        if isinstance(op, ast.In):
+            return k in cs
+        if isinstance(op, ast.NotIn):
+            return k not in cs
+    return None
+
+
+def rule_kindmissing(ctx) -> RuleResult:
+    res = RuleResult("R-KINDMISSING", "an identity shortcut for 'no missing values' fires only for dtype kinds without a missing value", min_instances=1)
+    f = ctx.prog.func("core.groupby_scan")
+    arr = f.params[0]
+    n = 0
+    for st in walk_own(f.node):
+        if not isinstance(st, ast.If) or ".dtype.kind" not in norm(st.test):
+            continue
+        rets = [r for r in st.body if isinstance(r, ast.Return) and isinstance(r.value, ast.Name) and r.value.id == arr]
+        if not rets:
+            continue
+        n += 1
+        # leaves that are not kind tests (is this a fill scan?) are taken as true: the shortcut can be reached
+        def ev(t, k):
+            if isinstance(t, ast.BoolOp) and isinstance(t.op, ast.And):
+                vals = [ev(v, k) for v in t.values]
+                return False if any(v is False for v in vals) else True
+            v = _eval_kind_test(t, ".dtype.kind", k)
+            return True if v is None else v
+        fires = sorted(k for k in _KINDS if ev(st.test, k))
+        bad = sorted(set(fires) & _KINDS_WITH_MISSING)
+        res.inst(f"groupby_scan: 'if {norm(st.test)[:70]}: return {arr}' fires for kinds {''.join(fires)}; kinds with a missing value among them: {''.join(bad) or 'none'}",
+                 f"shortcut|{st.lineno}")
+        if bad:
+            res.report(f"core.groupby_scan|identity-shortcut-kinds|{''.join(bad)}", f.where(st), f.qualname,
+                       f"the input is returned unchanged when '{norm(st.test)[:70]}', which holds for dtype kinds {''.join(bad)}: those have a missing value "
+                       "(c: NaN, m/M: NaT, O: None/NaN), so ffill / bfill of a datetime64 array with NaT comes back unfilled")
+    if n == 0:
+        res.notes.append("groupby_scan has no identity shortcut on dtype.kind: rule not applicable")
+        res.min_instances = 0
+    return res
